@@ -235,7 +235,7 @@ uint32_t _ZNSi3getEv(void *i) {
   int pos = s->rpos;
   if (pos >= b->n) { ios->state |= VS_EOF | VS_FAIL; return (uint32_t)-1; }
   struct vs_tok t = b->t[pos];
-  if (t.kind != 0) { __CPROVER_assert(0, "model: get() on an INT token (character-level read of a number is outside the model)"); __CPROVER_assume(0); }
+  if (t.kind != 0) { __CPROVER_assert(0, "desync: character-level get() hits an integer token (reader out of step with the writer)"); __CPROVER_assume(0); }
   s->rpos = pos + 1;
   ((struct vs_obj *)i)->gcount = 1;
   return (uint32_t)(uint8_t)t.v;
@@ -254,7 +254,7 @@ uint32_t _ZNSi4peekEv(void *i) {
   int pos = s->rpos;
   if (pos >= b->n) { ios->state |= VS_EOF; return (uint32_t)-1; }
   struct vs_tok t = b->t[pos];
-  if (t.kind != 0) { __CPROVER_assert(0, "model: peek() on an INT token (outside the model)"); __CPROVER_assume(0); }
+  if (t.kind != 0) { __CPROVER_assert(0, "desync: character-level peek() hits an integer token (reader out of step with the writer)"); __CPROVER_assume(0); }
   return (uint32_t)(uint8_t)t.v;
 }
 void *_ZNSi5ungetEv(void *i) {
